@@ -126,31 +126,9 @@ def run(prog: Program, res: Result) -> None:
         res.add(Finding(P, "C11.R1-same-count-as-serial", construct_key(prog, node, prog.modules[f"{PKG}.abstract"]),
                         f"pyvolutionary/abstract.py:{node.lineno}", msg))
     # ------------------------------------------------------------------ get_pool_results
+    okh, why = check_get_pool_results(prog)
     gp = prog.func(f"{PKG}.helpers.get_pool_results")
-    fors = [n for n in own_nodes(gp) if isinstance(n, ast.For)]
-    okh = len(fors) == 1
-    why = "no single loop over the futures"
-    if okh:
-        lp = fors[0]
-        it = lp.iter
-        okh = isinstance(it, ast.Call) and dotted(it.func) in ("parallel.as_completed", "as_completed", "concurrent.futures.as_completed") \
-            and len(it.args) == 1 and dotted(it.args[0]) == gp.params[0]
-        if not okh and dotted(it) == gp.params[0]:
-            okh = True
-        why = "the loop does not range over every submitted future"
-        if okh:
-            apps = [n for n in ast.walk(lp) if isinstance(n, ast.Call) and isinstance(n.func, ast.Attribute) and n.func.attr == "append"]
-            jumps = [n for n in ast.walk(lp) if isinstance(n, (ast.Break, ast.Continue, ast.If, ast.Try, ast.Return))]
-            v = lp.target.id if isinstance(lp.target, ast.Name) else None
-            okh = len(apps) == 1 and not jumps and len(lp.body) == 1 and len(apps[0].args) == 1 \
-                and isinstance(apps[0].args[0], ast.Call) and isinstance(apps[0].args[0].func, ast.Attribute) \
-                and apps[0].args[0].func.attr == "result" and dotted(apps[0].args[0].func.value) == v
-            why = "results are not appended exactly once per future (filter, break, try/except or extra append)"
-            if okh:
-                rets = [n for n in own_nodes(gp) if isinstance(n, ast.Return)]
-                okh = len(rets) == 1 and dotted(rets[0].value) == dotted(apps[0].func.value)
-                why = "the gathered list is not what is returned"
-    res.ob(okh, f"{gp.loc()} get_pool_results: one append of future.result() per completed future", "get_pool_results")
+    res.ob(okh, f"{gp.loc()} get_pool_results: one result per completed future, unfiltered", "get_pool_results")
     if not okh:
         res.add(Finding(P, "C11.R1-gather-exactly-once", "helpers.get_pool_results::loop", gp.loc(), f"get_pool_results: {why}"))
     # executor factory: thread -> ThreadPoolExecutor else ProcessPoolExecutor, both with n_workers
@@ -202,6 +180,51 @@ def run(prog: Program, res: Result) -> None:
                f"purity:{ctx.name}")
     res.count("optimizer-contexts", n_ctx)
     res.floor("optimizer-contexts", 84)
+
+
+def check_get_pool_results(prog: Program) -> tuple:
+    """Canonical form (after normalisation): the function returns an unfiltered comprehension `<f>.result()` over
+    as_completed(<its parameter>) (or over the parameter itself); nothing else touches the list.  -> (ok, why)"""
+    from ..flow import origin, returns_of
+    gp = prog.func(f"{PKG}.helpers.get_pool_results")
+    param = gp.params[0] if gp.params else None
+    rets = returns_of(gp.node)
+    if len(rets) != 1 or rets[0].value is None:
+        return False, "not a single return of the gathered list"
+    v = origin(gp.node, rets[0].value)
+    if not isinstance(v, ast.ListComp):
+        loops = [n for n in own_nodes(gp) if isinstance(n, (ast.For, ast.While))]
+        if loops:
+            jumps = [n for n in ast.walk(loops[0]) if isinstance(n, (ast.Break, ast.Continue, ast.If, ast.Try, ast.Return))]
+            apps = [n for n in ast.walk(loops[0]) if isinstance(n, ast.Call) and isinstance(n.func, ast.Attribute) and n.func.attr in ("append", "extend", "insert")]
+            if jumps or len(apps) != 1:
+                return False, "results are not appended exactly once per future (filter, break, try/except or extra append)"
+        return False, f"the returned value `{norm(v, 60)}` is not the list of every future's result"
+    if len(v.generators) != 1:
+        return False, "nested comprehension over the futures"
+    g = v.generators[0]
+    if g.ifs:
+        return False, f"results are filtered (`if {norm(g.ifs[0], 50)}`): a pooled evaluation can be lost"
+    it = g.iter
+    over = (isinstance(it, ast.Call) and dotted(it.func) in ("parallel.as_completed", "as_completed", "concurrent.futures.as_completed")
+            and len(it.args) == 1 and dotted(it.args[0]) == param) or dotted(it) == param \
+        or (isinstance(it, ast.Call) and dotted(it.func) in ("parallel.wait",) and False)
+    if not over:
+        return False, f"the comprehension ranges over `{norm(it, 50)}`, not over every submitted future"
+    e = v.elt
+    if not (isinstance(e, ast.Call) and isinstance(e.func, ast.Attribute) and e.func.attr == "result" and isinstance(g.target, ast.Name)
+            and dotted(e.func.value) == g.target.id):
+        return False, f"the element `{norm(e, 50)}` is not the future's own result()"
+    # the list is not edited between the comprehension and the return
+    name = rets[0].value.id if isinstance(rets[0].value, ast.Name) else None
+    if name:
+        for n in own_nodes(gp):
+            if isinstance(n, ast.Call) and isinstance(n.func, ast.Attribute) and dotted(n.func.value) == name \
+                    and n.func.attr in ("pop", "remove", "clear", "append", "extend", "insert", "sort", "reverse"):
+                return False, f"the gathered list is edited afterwards (`{norm(n, 50)}`)"
+            if isinstance(n, ast.Subscript) and dotted(n.value) == name and isinstance(n.ctx, (ast.Store, ast.Del)):
+                return False, "the gathered list is edited afterwards"
+    return True, ""
 
 
 def _may_draw(prog: Program, method: str) -> list:
